@@ -2,6 +2,8 @@
    Statements only; proofs are single [exact]s of lemmas in Proofs/C02_*.v. *)
 From Coq Require Import List NArith Bool.
 From Wesh Require Import Model.Store Model.C02_Ratchet Proofs.C02_Ratchet Proofs.C02_Spec.
+From Coq Require String.
+From Wesh Require Gen.Seal GenFacts.SealFacts.
 Import ListNotations.
 Open Scope N_scope.
 
@@ -68,6 +70,18 @@ Example C02_nonvacuous :
     [OFail; ODone; OFail; OFail; OOk 100003; ODone; OOk 100004; OOk 100003; OOk 100002; OOk 100005].
 Proof. split; [repeat constructor|vm_compute; reflexivity]. Qed.
 
+(* deliveries that run at the same time: every delivery is ONE critical section of the store's message mutex in
+   the CURRENT source (generated facts), so whatever runs concurrently is some history of the kind the theorems
+   above quantify over *)
+Module Serialised.
+Import String Gen.Seal.
+Theorem C02_deliveries_are_serialised :
+  (skel_open = ["lock s.messageMutex"; "defer unlock s.messageMutex"; "call openPayload"; "call postDecryptActions"] /\
+   open_critical = "whole")%string.
+Proof. exact GenFacts.SealFacts.open_is_one_critical_section. Qed.
+End Serialised.
+Export Serialised.
+
 Print Assumptions C02_store_refines_ratchet.
 Print Assumptions C02_openable_iff.
 Print Assumptions C02_unregistered_fails.
@@ -75,3 +89,4 @@ Print Assumptions C02_reregister_noop.
 Print Assumptions C02_never_before_c.
 Print Assumptions C02_opened_after_c.
 Print Assumptions C02_retry_completeness.
+Print Assumptions C02_deliveries_are_serialised.
